@@ -148,8 +148,12 @@ def parse_frame_header(f):
     fl = [1 if ss else 0, 2, 4, 8][d >> 6]
     fcs = int.from_bytes(f[p:p + fl], 'little') + (256 if fl == 2 else 0); p += fl
     if p > len(f): return None
+    window = None
+    if wd is not None:
+        base = 1 << (10 + (wd >> 3))
+        window = base + (base // 8) * (wd & 7)
     return {'desc': d, 'wd': wd, 'dict_id': did, 'fcs': fcs if fl else None, 'hdr_len': p, 'checksum': (d >> 2) & 1,
-            'single': ss}
+            'single': ss, 'window': window}
 
 
 def walk_blocks(f):
